@@ -75,6 +75,16 @@ Definition c15_url_pred (args : list val) : bool :=
                end
       | _ => true
       end
+  | [WNat 3; o] =>
+      (* however produced (with_name, with_suffix, parent, any operation sequence): under an
+         authority the stored path has no dot segment *)
+      match o with
+      | WList _ =>
+          if obs_has_authority o
+          then match nthv i_raw_path o with WStr r => no_dot_segments r | _ => false end
+          else true
+      | _ => true
+      end
   | [WNat 2; WStr base; WList segs; o] =>
       match o with
       | WList _ =>
